@@ -49,3 +49,31 @@ Theorem C20_input_refused : forall s op payload offered capn,
   compress_stream s op payload offered capn = Done (false, s, io0 offered capn).
 Proof. exact input_refused_unless_processing. Qed.
 Print Assumptions C20_input_refused.
+
+(* Repeating a request while offering output space reaches its completion after finitely many
+   calls: every stream call (other than metadata) that returns true and was offered at least
+   one byte of output space either filled the output buffer it was given - so it delivered at
+   least one byte - or completed the request: all offered input consumed and nothing pending.
+   Since only finitely many bytes are pending between two back-end invocations, repetition
+   with output space terminates. *)
+Theorem C20_progress : forall s0 op payload offered capn s' x',
+  op <> OpMeta -> all_ok (oracle s0) -> 1 <= capn ->
+  compress_stream s0 op payload offered capn = Done (true, s', x') ->
+  lenN (produced x') = capn \/ (in_off x' = offered /\ avail_out_ s' = 0).
+Proof. exact call_progress. Qed.
+Print Assumptions C20_progress.
+
+(* No panic in the flush padding: with nothing pending the padding block is always written
+   (repaired code: 5c81998).  As found, a metadata block that ended exactly at the end of the
+   16-byte tiny buffer left the output cursor there, and a later flush at quality 0/1 (block
+   compressed straight into the caller's buffer) indexed past the buffer and panicked. *)
+Theorem C20_padding_no_panic : forall s, avail_out_ s = 0 ->
+  exists s', inject_byte_padding_block s = Done s'.
+Proof. exact padding_no_panic_when_drained. Qed.
+Print Assumptions C20_padding_no_panic.
+
+Theorem C20_padding_asfound_refuted :
+  exists s, avail_out_ s = 0 /\ inject_byte_padding_block_asfound s = Panic 3
+            /\ exists s', inject_byte_padding_block s = Done s'.
+Proof. exact padding_asfound_refuted. Qed.
+Print Assumptions C20_padding_asfound_refuted.
